@@ -25,16 +25,21 @@ def chk(pid, category, text, note, technique, design_ref, engine):
 
 H_NOTE = ("Trusted: the reference model rv/model.py (independent re-statement of redo's documented semantics), the "
           "instrumented script library rv/lib.sh, dash as sh, tmpfs under /dev/shm. Bounded to generated projects of "
-          "<= 8 (quick) / 14 (thorough) targets and histories of <= 14 / 30 operations at -j1.")
+          "<= 8 (quick) / 14 (thorough) targets and histories of <= 22 / 30 operations at -j1. Operations: commands from "
+          "several cwds, source edits that may REVERT to earlier bytes, touches, target removals, .do edits/additions/"
+          "removals, watched paths created as files or directories, fail/stamp flag toggles, manual file operations, "
+          "queries, and (C01/C02) commands killed before their n-th state-changing libc call followed by a recovery run.")
 
 chk("C01", "exploration",
     "Generated histories against the real binary; after every successful command the requested closure must equal an "
     "independent from-scratch evaluation and must not be listed by redo-ood. Finds staleness that needs a particular "
-    "order of edits / forced rebuilds / checksummed rebuilds (found D1).", H_NOTE,
+    "order of edits / forced rebuilds / checksummed rebuilds / interrupted builds (found D1). Three generator families: "
+    "general, dense in (conditionally) checksummed rules, and tiny projects with a small operation alphabet.", H_NOTE,
     "property-based testing: Hypothesis-generated histories, from-scratch content oracle", "DESIGN.md §4 C01", "H")
 chk("C02", "exploration",
     "Generated histories; the multiset of executed scripts of every command must equal the prediction of a reference "
-    "model that tracks the dependency versions seen at each target's last build.", H_NOTE,
+    "model that tracks the dependency versions seen at each target's last build; histories include killed commands "
+    "(recovery run judged on contents/status only) (found D19, D24).", H_NOTE,
     "property-based testing: Hypothesis-generated histories vs reference model (execution multiset)", "DESIGN.md §4 C02", "H")
 chk("C03", "exploration",
     "Generated histories over graphs dense in redo-stamp targets with lossy projections; per executed checksummed "
@@ -44,8 +49,11 @@ chk("C03", "exploration",
 chk("C05", "exploration",
     "Generated histories with harness-controlled failing scripts, multi-target command lines, keep-going on/off; exit "
     "status class, nested redo-ifchange statuses, execution multiset (retry next run, nothing started after a known "
-    "failure, keep-going completeness), never twice per run, redo-ood after failure.", H_NOTE,
-    "property-based testing: Hypothesis-generated failure histories vs reference model + trace invariants", "DESIGN.md §4 C05", "H")
+    "failure, keep-going completeness), never twice per run, redo-ood after failure. Second tier (rv/props/c05s.py): "
+    "gated parallel scenarios, optionally with another invocation holding locks: exit status, failing script at most "
+    "once per invocation, no new script from a redo process after one of its scripts failed and the system was "
+    "quiescent (unless keep-going), keep-going completeness.", H_NOTE + " " + "Parallel tier: see the S-engine note in C06.",
+    "property-based testing: Hypothesis-generated failure histories vs reference model + schedule fuzzing with trace invariants", "DESIGN.md §4 C05, §10", "H+S")
 chk("C11", "exploration",
     "Generated histories mixing builds with manual create/edit/replace/remove of rule-matched names; bytes, inode and "
     "mtime of every user-owned file are compared after every command; override warning, rebuild after removal and "
@@ -97,7 +105,8 @@ chk("C04", "fault_enumeration",
 chk("C06", "exploration",
     "2-4 overlapping top-level invocations over gated scripts, start times and completion order decided by the "
     "harness, failing scripts and group signals; no script start for a target may arrive while another live "
-    "execution of it is open.", S_NOTE,
+    "execution of it is open. 45% of the scenarios are rebuilds after a complete serial build and a source edit "
+    "(out-of-band path through redo-unlocked).", S_NOTE,
     "schedule fuzzing: Hypothesis-generated scenarios + harness-owned schedules, trace interval invariant", "DESIGN.md §4 C06", "S")
 chk("C07", "exploration",
     "One parallel invocation under a generated schedule vs the model's serial evaluation and a real serial build in a "
@@ -107,7 +116,10 @@ chk("C07", "exploration",
 chk("C08", "exploration",
     "Own jobserver (-j1..8) and harness-as-parent-jobserver (K tokens in the pipe, H held back and given/stolen at "
     "decision points, low/high fd numbers), failing / error-exit variants, second contending invocation, coincidence "
-    "schedules: work-section overlap <= limit (+1 with log capture), no token-count error, FIONREAD accounting.", S_NOTE,
+    "schedules: work-section overlap <= limit (+1 with log capture), no token-count error, FIONREAD accounting. 35% of "
+    "the cases come from a directed lock-wait family (another invocation holds gated leaves; the measured one runs "
+    "under the harness jobserver with 0-1 tokens and log capture and must wait for the locks one after the other; the "
+    "harness steals the parked token while redo blocks in F_SETLKW and returns it later) -- the cheat-token paths.", S_NOTE,
     "schedule fuzzing with harness-played jobserver, token-accounting invariants", "DESIGN.md §4 C08", "S")
 chk("C09", "exploration",
     "1-3 invocations, -j1..8, shuffle, inherited jobserver, duplicate spellings; which gated scripts finish together "
@@ -127,11 +139,13 @@ chk("C10", "fault_enumeration",
 chk("C12", "exploration",
     "Generated graphs with a cycle of length 1-5, prefixes, siblings and second entries, every kind of entry set, "
     "-j1..4; must terminate non-zero with the cycle identified; hang only with proof. The known hanging shape (D8) is "
-    "generated in ~8% of its natural share and counted as excluded otherwise.", S_NOTE,
+    "generated in ~8% of its natural share and counted as excluded otherwise. 40% of the cases build an acyclic "
+    "version first and close the cycle by a .do edit, with checksummed members (found D22).", S_NOTE,
     "schedule fuzzing over generated cyclic graphs, termination + status oracle", "DESIGN.md §4 C12", "S")
 chk("C16", "exploration",
     "2-10 commands (builds and queries) started within 0-20 ms on a fresh or pre-built project; exit statuses, SQLite "
-    "error strings, integrity_check and presence of every Files/Deps row of every script that ran.",
+    "error strings, integrity_check and presence of every Files/Deps row of every script that ran. Command lines may "
+    "name existing files redo has never seen; produced files may be removed before the race (found D2, D10, D23).",
     "Trusted: kernel scheduling noise as the source of transaction interleavings (not enumerated); sqlite3 module for "
     "the read-only inspection after all processes are gone.",
     "concurrency fuzzing: generated command mixes started together, error-string + record-presence oracle", "DESIGN.md §4 C16", "S-free")
